@@ -61,7 +61,7 @@ type errNoReturn struct{ error }
 
 const (
 	returnBound = 30 * time.Second // a pending call must return within this after cancellation
-	gapBound    = 5 * time.Second  // largest admissible gap between two consecutive polls of the context
+	gapBound    = 20 * time.Second // largest admissible gap between two consecutive polls of the context
 )
 
 // gapCtx wraps StepCtx and records the largest gap between two consecutive polls.
